@@ -308,7 +308,7 @@ Theorem merge_ok c s ord : Inv s -> merge_ready c s ord ->
 Proof.
   intros HI Hready. pose proof HI as (Hs & Hle & Hh & Hst & Hact & Hfa & HC).
   destruct (select_ok c s HI) as (sel0 & bound & Hsel & Hmem).
-  unfold merge. rewrite Hsel. rewrite (Hready sel0 Hsel). cbn [negb].
+  unfold merge, merge_with. rewrite Hsel. rewrite (Hready sel0 Hsel). cbn [negb].
   set (sel := sort_ids sel0). set (S := fun g => mem g sel).
   assert (HS : forall g, S g = hasrow (s_stats s) g && match bound with Some b => g <=? b | None => false end).
   { intros g. unfold S, sel. rewrite mem_sort_ids. apply Hmem. }
